@@ -187,7 +187,7 @@ func (c *proxyClient) readLoop(ctx context.Context) error {
 	for {
 		rpc, err := c.conn.Read(ctx)
 		if err != nil {
-			c.toServer <- command{id: c.id, client: c, err: err}
+			c.report(ctx, err)
 			return errors.Wrap(err, "failed to read from connection")
 		}
 
@@ -206,12 +206,21 @@ func (c *proxyClient) writeLoop(ctx context.Context) error {
 
 			err := c.conn.Write(ctx, rpc)
 			if err != nil {
-				c.toServer <- command{id: c.id, client: c, err: err}
+				c.report(ctx, err)
 				return errors.Wrap(err, "failed to write to connection")
 			}
 		case <-ctx.Done():
 			return errors.Wrap(ctx.Err(), "context cancelled")
 		}
+	}
+}
+
+// report tells the serve loop that this connection has failed, unless the
+// proxy has been cancelled: then nobody is listening any more.
+func (c *proxyClient) report(ctx context.Context, err error) {
+	select {
+	case c.toServer <- command{id: c.id, client: c, err: err}:
+	case <-ctx.Done():
 	}
 }
 
@@ -227,7 +236,7 @@ func (c *proxyClient) connect(ctx context.Context, newConnection NewConnection) 
 
 	c.conn, err = newConnection(c.id)
 	if err != nil {
-		c.toServer <- command{id: c.id, client: c, err: err}
+		c.report(ctx, err)
 		return
 	}
 
